@@ -43,6 +43,9 @@ type Folder struct {
 	Stop     func(in ssa.Instruction) bool
 	// OnCall observes every evaluated call with its folded arguments.
 	OnCall   func(call *ssa.Call, args []cval)
+	// OnStore observes every store of the function under evaluation (not of
+	// folded callees) with the folded value.
+	OnStore func(st *ssa.Store, v cval)
 	// CallHook may supply the result of a call from its folded arguments.
 	CallHook func(call *ssa.Call, args []cval) (cval, bool)
 	MaxDepth int
@@ -164,6 +167,9 @@ func (f *Folder) eval(fn *ssa.Function, args []cval, depth int) []Outcome {
 				}
 				env[x] = f.unop(env, x)
 			case *ssa.Store:
+				if f.OnStore != nil && depth == 0 {
+					f.OnStore(x, f.val(env, x.Val))
+				}
 				if k := addrKey(env, f, x.Addr); k != "" {
 					mem[k] = f.val(env, x.Val)
 				}
